@@ -120,6 +120,7 @@ func runC05(c *Ctx) {
 
 	// --- no hidden state: translation results cannot depend on earlier translations ---
 	c.checkNoLibraryGlobalWrites("library-global-state")
+	c.checkCodonLoopBound()
 
 	// --- R9 TranslateByReference: all-gap reference codon ------------------------
 	c.checkRefCodonAllGap()
@@ -1092,4 +1093,81 @@ func codonWindowOf(fn *ssa.Function) *codonWindow {
 		}
 	})
 	return w
+}
+
+// checkCodonLoopBound: TranslateByReference walks the reference codons while the last column of the
+// window is inside the alignment. Every comparison of that column (position 2 of the window) with
+// a bound must use the alignment length itself — the length of the rows as they were before the
+// container was emptied — not a quantity derived from it: a bound shortened by the phase stops
+// one codon early for some lengths, a longer one reads past the rows.
+func (c *Ctx) checkCodonLoopBound() {
+	L := c.L
+	rule := "codon-loop-bound"
+	L.Rule(rule, "in TranslateByReference every comparison of the last column of the reference codon window with a bound compares it with the alignment length (the row length), as a linear form exactly one length atom: every complete codon of the reference is translated and no column past the rows is read")
+	r := c.fn("align", "*align", "TranslateByReference")
+	if !r.ok() {
+		return
+	}
+	fn := r.F
+	w := codonWindowOf(fn)
+	lc := newLinCtx(c, fn)
+	n := 0
+	var bad []string
+	allInstrs(fn, func(in ssa.Instruction) {
+		bo, ok := in.(*ssa.BinOp)
+		if !ok {
+			return
+		}
+		switch bo.Op {
+		case token.LSS, token.LEQ, token.GTR, token.GEQ:
+		default:
+			return
+		}
+		var bound ssa.Value
+		if k, ok := w.posOf(bo.X); ok && k == 2 {
+			bound = bo.Y
+		} else if k, ok := w.posOf(bo.Y); ok && k == 2 {
+			bound = bo.X
+		}
+		if bound == nil {
+			return
+		}
+		if _, isK := bound.(*ssa.Const); isK {
+			return
+		}
+		// a comparison between two window positions is not a bound test
+		if _, ok := w.posOf(bound); ok {
+			return
+		}
+		// nor is the scan of the window's own columns (`for si := p0; si <= p2; si++`)
+		if _, isPhi := bound.(*ssa.Phi); isPhi {
+			return
+		}
+		n++
+		l := lc.of(bound)
+		okBound := false
+		if l.c == 0 && len(l.t) == 1 {
+			for at, k := range l.t {
+				if k == 1 && (strings.HasPrefix(at, "L(") || (strings.HasPrefix(at, "len(") && strings.Contains(at, "sequence"))) {
+					okBound = true
+				}
+			}
+		}
+		if !okBound {
+			bad = append(bad, fmt.Sprintf("%s at %s compares with %s", c.exprOr(bo), c.P.Pos(bo.Pos()), l.String()))
+		}
+	})
+	switch {
+	case n == 0:
+		L.Unknown(rule, r.label, "bound of the codon window", c.P.Pos(fn.Pos()), "no comparison of the last column of the reference codon window with a bound was found")
+	case len(bad) > 0:
+		L.Bad(rule, r.label, "bound of the codon window", c.P.Pos(fn.Pos()), "the last column of the codon window is not compared with the alignment length itself: "+strings.Join(bad, "; "))
+	default:
+		L.OK(rule, r.label, "bound of the codon window", c.P.Pos(fn.Pos()), fmt.Sprintf("%d comparison(s), each with the alignment length", n))
+	}
+	L.Floor(rule, 1, "one function")
+}
+
+func (c *Ctx) exprOr(bo *ssa.BinOp) string {
+	return bo.X.Name() + " " + bo.Op.String() + " " + bo.Y.Name()
 }
